@@ -560,3 +560,12 @@ package main
 // every place that creates a certificate is one of the functions above (or start-up code making the CA / TLS certificates)
 //@ callers crypto/x509.CreateCertificate only (*RuntimeState).generateRoleCert, generateCertAndWriteToFile, certgen.GenUserX509Cert, certgen.GenIPRestrictedX509Cert, certgen.GenSelfSignedCACert  #C20.all-signing-sites-known @C20
 //@ callers golang.org/x/crypto/ssh.Certificate).SignCert only certgen.GenSSHCertFileString  #C20.all-ssh-signing-sites-known @C20
+
+// ---- C19 (server half): every key type the keymaster client offers passes the server's key-line pattern -----------
+// The client (cmd/keymaster signers.go, contract in that package) generates RSA, P-256, P-384 and Ed25519 keys; their
+// authorized-key lines are "<type> <base64 blob>" with an optional trailing newline.
+//@ pure func clientKeyLine(s string) bool = strMatchesGoRe(s, "^(ssh-rsa|ecdsa-sha2-nistp256|ecdsa-sha2-nistp384|ssh-ed25519) [a-zA-Z0-9/+]+=?=?\n?$")
+//@ ghost var ghostKeyPatternOK bool
+//@ func getValidSSHPublicKey
+//@   atcall regexp.MatchString sets ghostKeyPatternOK bool (pattern string, s string, matched bool, err2 error) :: matched && err2 == nil
+//@   ensures clientKeyLine(userPubKey) ==> ghostKeyPatternOK        #C19.server-accepts-offered-key-types @C19
